@@ -65,6 +65,7 @@ type Exec struct {
 	closureAlias   map[*ssa.Function]string // anonymous functions whose contract is written under another ordinal (AlignClosures)
 	AliasNotes     []string
 	LocalsBaseline map[string][]LocalInfo // spec/locals_baseline.json
+	FuncsBaseline  map[string]string      // function key -> signature at baseline time ("$functions" of the same file)
 	applyingFn     *ssa.Function          // callee whose contract is being applied at a call site
 	globalRows     map[*ssa.Global]int64  // heap rows of package-level arrays of the module
 	inInit         bool
